@@ -7,6 +7,7 @@ import (
 	"go/ast"
 	"go/types"
 	"os"
+	"os/exec"
 	"path/filepath"
 	"runtime"
 	"sort"
@@ -30,6 +31,9 @@ type PropSpec struct {
 	BoundedFuncs []BoundedFunc `json:"bounded_functions"`
 	Notes     []string   `json:"notes"`
 	Timeout   int        `json:"timeout_s"`
+	// Also: other ledgers whose functions this property depends on (e.g. the DH checks that the key
+	// exchange calls): they are checked too, in their own package load, and reported under this property
+	Also []string `json:"also"`
 }
 
 type FuncRef struct {
@@ -89,7 +93,9 @@ func cmdCheck(argv []string) int {
 	only := fs.String("only", "", "only this function key")
 	noReplay := fs.Bool("noreplay", false, "skip replay")
 	noEvidence := fs.Bool("noevidence", false, "do not write the evidence file (self-tests)")
+	reportAs := fs.String("as", "", "report results under this property id (sub-ledger runs)")
 	fs.Parse(argv)
+	ledger := *prop
 	if t := os.Getenv("VERIF_TIER"); t != "" && *tier == "quick" {
 		*tier = t
 	}
@@ -101,7 +107,7 @@ func cmdCheck(argv []string) int {
 	}
 	t0 := time.Now()
 	var spec PropSpec
-	data, err := os.ReadFile("/verif/props/" + *prop + ".json")
+	data, err := os.ReadFile("/verif/props/" + ledger + ".json")
 	if err != nil {
 		fmt.Fprintln(os.Stderr, err)
 		return 2
@@ -117,6 +123,10 @@ func cmdCheck(argv []string) int {
 			return 2
 		}
 	}
+	if *reportAs != "" {
+		*prop = *reportAs // everything below reports under the parent property; the ledger is `ledger`
+		*noEvidence = true
+	}
 	eng := newEngine()
 	eng.known = known
 	knownObls := 0
@@ -130,6 +140,13 @@ func cmdCheck(argv []string) int {
 		return 2
 	}
 	loadSecs := time.Since(t0).Seconds()
+	var immutableBroken []string
+	for _, b := range eng.checkImmutable() {
+		// a field the contracts rely on as written-once is assigned outside a constructor
+		o := &Obligation{Name: "immutable#" + sanitize(b), Kind: "immutable", Fn: "immutable", Pos: b, Desc: "field declared immutable is assigned outside a constructor: " + b, Status: "syntactic"}
+		rp := writeReplayText(*prop, o, "a field declared immutable in the contracts (unknown code is assumed not to change it) is assigned outside a constructor: "+b)
+		immutableBroken = append(immutableBroken, fmt.Sprintf("VIOLATION property=%s replay=%s obligation=%s %s no-failing-input-found", *prop, rp, o.Name, b))
+	}
 	var reports []FuncReport
 	for _, fr := range spec.Functions {
 		if *only != "" && fr.Key != *only {
@@ -166,6 +183,10 @@ func cmdCheck(argv []string) int {
 	// classify
 	exit := 0
 	var violations []string
+	if len(immutableBroken) > 0 {
+		exit = 1
+		violations = append(violations, immutableBroken...)
+	}
 	var knownPrinted []string
 	discharged, total := 0, 0
 	wins := map[string]int{}
@@ -272,7 +293,7 @@ func cmdCheck(argv []string) int {
 			continue
 		}
 		// failed or undecided obligation
-		if kf := matchKnown(eng.known, *prop, o); kf != nil {
+		if kf := matchKnown(eng.known, ledger, o); kf != nil {
 			isKnown := true
 			if kf.Class != "" {
 				// the failure is the known one only if nothing fails outside the recorded witness class
@@ -421,6 +442,41 @@ func cmdCheck(argv []string) int {
 			"per_obligation_timeout_s": timeout.Seconds(),
 		},
 		"assumptions": append(append([]string{}, spec.Assumed...), spec.Notes...),
+	}
+	// dependent ledgers, each in its own process (own package load), reported under this property
+	if *reportAs == "" && *only == "" {
+		var subs []map[string]string
+		for _, sl := range spec.Also {
+			args := []string{"check", "-prop", sl, "-as", *prop, "-tier", *tier}
+			if *noReplay {
+				args = append(args, "-noreplay")
+			}
+			cmd := exec.Command(os.Args[0], args...)
+			cmd.Env = os.Environ()
+			out, err := cmd.CombinedOutput()
+			last := ""
+			for _, ln := range strings.Split(strings.TrimSpace(string(out)), "\n") {
+				if strings.HasPrefix(ln, "VIOLATION ") {
+					violations = append(violations, ln)
+					fmt.Println(ln)
+					exit = 1
+				} else if strings.HasPrefix(ln, "KNOWN-FINDING:") || strings.HasPrefix(ln, "UNDECIDED ") {
+					fmt.Println(ln)
+				}
+				last = ln
+			}
+			if err != nil && exit == 0 {
+				if ee, ok := err.(*exec.ExitError); !ok || ee.ExitCode() != 1 {
+					fmt.Println("sub-ledger " + sl + " failed to run: " + err.Error())
+					exit = 2
+				}
+			}
+			subs = append(subs, map[string]string{"ledger": sl, "result": last, "evidence": "/verif/evidence/" + sl + ".json (written by that property's own run)"})
+		}
+		if len(subs) > 0 {
+			ev["coverage"].(map[string]interface{})["dependent_ledgers_checked_under_this_property"] = subs
+			ev["violations"] = len(violations)
+		}
 	}
 	if !*noEvidence {
 		os.MkdirAll("/verif/evidence", 0o755)
